@@ -191,6 +191,14 @@ theorem retarget_page0 (s : Selecting) (sh : Shared D L) :
     | trivial
     | exact ⟨_, rfl, rfl⟩
 
+/-- the end of the `j` / `k` arms: the list stays open with its invariant, or it is closed -/
+theorem selOk_closeIfEmpty (r : SelRes D L) (hb : ∃ b, r.trans = .spin b) (hp : PageOk env r.sel r.shared) :
+    SelOk env (closeIfEmpty env r) := by
+  intro x h
+  rcases closeIfEmpty_cases env h with rfl | rfl
+  · exact Or.inr ⟨hb, hp⟩
+  · exact Or.inl rfl
+
 theorem selOk_selMove (s : Selecting) (sh : Shared D L) (isJ : Bool) (hp : PageOk env s sh) :
     SelOk env (selMove env s sh isJ) := by
   unfold selMove
@@ -198,7 +206,7 @@ theorem selOk_selMove (s : Selecting) (sh : Shared D L) (isJ : Bool) (hp : PageO
   · exact selOk_spin env _ hp
   · dsimp only
     split
-    · exact selOk_spin env _ (pageOk_zero env _ (by
+    · exact selOk_closeIfEmpty env _ ⟨_, rfl⟩ (pageOk_zero env _ (by
         rename_i sh' s' hq
         obtain ⟨s'', h1, h2⟩ := (retarget_page0 env _ _).elim hq
         simp only at h1
@@ -327,6 +335,13 @@ theorem opens0_newPhrase (sh : Shared D L) : Opens0 (newPhrase env sh) := by
   · exact opens0_panic _
   · exact opens0_fuel
 
+/-- an ignored request opens nothing -/
+theorem opens0_openPhrase (sh : Shared D L) : Opens0 (openPhrase env sh) := by
+  intro sh' s h
+  rcases openPhrase_cases env h with ⟨h1, _⟩ | ⟨h1, _⟩
+  · exact opens0_newPhrase env sh sh' s h1
+  · cases h1
+
 theorem opens0_newPhraseSimple (sh : Shared D L) : Opens0 (newPhraseSimple sh) := by
   unfold newPhraseSimple
   simp only
@@ -348,7 +363,7 @@ theorem opens0_startSelecting (sh : Shared D L) : Opens0 (startSelecting env sh)
   unfold startSelecting
   repeat' split
   all_goals first
-    | exact opens0_newPhrase env _
+    | exact opens0_openPhrase env _
     | exact opens0_newSpecialSymbol _ _
     | opens0_leaf
 
@@ -356,7 +371,7 @@ theorem opens0_startSelectingOrInputSpace (sh : Shared D L) : Opens0 (startSelec
   unfold startSelectingOrInputSpace
   repeat' split
   all_goals first
-    | exact opens0_newPhrase env _
+    | exact opens0_openPhrase env _
     | exact opens0_newSpecialSymbol _ _
     | opens0_leaf
 
@@ -730,12 +745,19 @@ theorem startSelecting_pageInv {e e' : Editor D L} {okk : Bool}
 
 /-! ### a freshly initialised phrase selector -/
 
+/-- a one-syllable range at a syllable the dictionary has no word for (F02 / F03 repair: the shrinking
+    loop of `PhraseSelector::init` keeps it instead of shrinking to an empty range) -/
+def PhraseSel.WordlessSyl (p : PhraseSel) (d : D) : Prop :=
+  PhraseSel.rangeHasPhrase env p d p.begin_ p.end_ = .ok false ∧ p.end_ = p.begin_ + 1 ∧
+  ∃ sym, p.com.symbol? p.begin_ = some sym ∧ sym.isSyl = true
+
 /-- what the shrinking loop of `PhraseSelector::init` returns: a non-empty range inside the buffer
-    for which the dictionary has a phrase; nothing but `begin` / `end` is touched -/
+    for which the dictionary has a phrase — or the one-syllable range of a syllable without a word;
+    nothing but `begin` / `end` is touched -/
 theorem initLoop_ok (d : D) : ∀ (fuel : Nat) (s s' : PhraseSel), PhraseSel.initLoop env s d fuel = .ok s' →
     s'.begin_ < s'.end_ ∧ s'.end_ ≤ s'.com.len ∧ s'.com = s.com ∧ s'.strategy = s.strategy ∧
     s'.forward = s.forward ∧ s'.orig = s.orig ∧
-    PhraseSel.rangeHasPhrase env s' d s'.begin_ s'.end_ = .ok true := by
+    (PhraseSel.rangeHasPhrase env s' d s'.begin_ s'.end_ = .ok true ∨ PhraseSel.WordlessSyl env s' d) := by
   intro fuel
   induction fuel with
   | zero => intro s s' h; simp [PhraseSel.initLoop] at h
@@ -749,17 +771,35 @@ theorem initLoop_ok (d : D) : ∀ (fuel : Nat) (s s' : PhraseSel), PhraseSel.ini
       · split at h
         · cases h
         · rename_i h1 h2 h3
+          have hne : s.begin_ ≠ s.end_ := by simpa using h3
           split at h
           · rename_i hp
             injection h with h; subst h
-            refine ⟨?_, by omega, rfl, rfl, rfl, rfl, hp⟩
-            have : s.begin_ ≠ s.end_ := by simpa using h3
-            omega
-          · split at h
-            · obtain ⟨a, b, c, d', e, f, g⟩ := ih _ _ h
-              exact ⟨a, b, c, d', e, f, g⟩
-            · obtain ⟨a, b, c, d', e, f, g⟩ := ih _ _ h
-              exact ⟨a, b, c, d', e, f, g⟩
+            exact ⟨by omega, by omega, rfl, rfl, rfl, rfl, Or.inl hp⟩
+          · rename_i hp
+            have hrec : (if s.forward = true then PhraseSel.initLoop env { s with end_ := s.end_ - 1 } d fuel
+                else PhraseSel.initLoop env { s with begin_ := s.begin_ + 1 } d fuel) = .ok s' →
+                s'.begin_ < s'.end_ ∧ s'.end_ ≤ s'.com.len ∧ s'.com = s.com ∧ s'.strategy = s.strategy ∧
+                s'.forward = s.forward ∧ s'.orig = s.orig ∧
+                (PhraseSel.rangeHasPhrase env s' d s'.begin_ s'.end_ = .ok true ∨ PhraseSel.WordlessSyl env s' d) := by
+              intro h
+              split at h
+              · obtain ⟨a, b, c, d', e, f, g⟩ := ih _ _ h
+                exact ⟨a, b, c, d', e, f, g⟩
+              · obtain ⟨a, b, c, d', e, f, g⟩ := ih _ _ h
+                exact ⟨a, b, c, d', e, f, g⟩
+            split at h
+            · rename_i sym hs
+              split at h
+              · rename_i hone
+                injection h with h; subst h
+                simp only [Bool.and_eq_true, beq_iff_eq] at hone
+                exact ⟨by omega, by omega, rfl, rfl, rfl, rfl, Or.inr ⟨hp, by omega, sym, hs, hone.2⟩⟩
+              · exact hrec h
+            · split at h
+              · rename_i hone
+                simp only [Bool.and_false, Bool.false_eq_true] at hone
+              · exact hrec h
           · cases h
           · cases h
 
@@ -792,7 +832,7 @@ theorem candidates_nonempty {p : PhraseSel} {d : D} {l : L} {cs : List Text}
 theorem init_ok {fw : Bool} {st : Strategy} {com : Composition} {cur : Nat} {d : D} {p : PhraseSel}
     (h : PhraseSel.init env fw st com cur d = .ok p) :
     p.begin_ < p.end_ ∧ p.end_ ≤ p.com.len ∧ p.com = com ∧
-    PhraseSel.rangeHasPhrase env p d p.begin_ p.end_ = .ok true := by
+    (PhraseSel.rangeHasPhrase env p d p.begin_ p.end_ = .ok true ∨ PhraseSel.WordlessSyl env p d) := by
   unfold PhraseSel.init at h
   simp only at h
   split at h
@@ -803,12 +843,11 @@ theorem init_ok {fw : Bool} {st : Strategy} {com : Composition} {cur : Nat} {d :
   · obtain ⟨a, b, c, _, _, _, g⟩ := initLoop_ok env d _ _ _ h
     exact ⟨a, b, c, g⟩
 
-/-- **a phrase list opened by Down / Space / `start_selecting` is on page 0 and not empty**, so its
-    page index is *strictly* below the page count -/
-theorem newPhrase_nonempty {sh sh' : Shared D L} {s : Selecting} {cs : List Text}
-    (h : newPhrase env sh = .ok (sh', .toState (.selecting s)))
-    (hc : Selecting.candidates env s sh' = .ok cs) :
-    s.pageNo = 0 ∧ cs ≠ [] ∧ ∃ p, s.sel = .phrase p ∧ p.begin_ < p.end_ ∧ p.end_ ≤ p.com.len := by
+/-- a phrase list made by `new_phrase` is on page 0 and its range is a non-empty part of the buffer (it
+    may list nothing: a syllable without a word — `open_phrase` does not open such a list) -/
+theorem newPhrase_opened {sh sh' : Shared D L} {s : Selecting}
+    (h : newPhrase env sh = .ok (sh', .toState (.selecting s))) :
+    s.pageNo = 0 ∧ ∃ p, s.sel = .phrase p ∧ p.begin_ < p.end_ ∧ p.end_ ≤ p.com.len := by
   unfold newPhrase at h
   simp only at h
   split at h
@@ -816,13 +855,42 @@ theorem newPhrase_nonempty {sh sh' : Shared D L} {s : Selecting} {cs : List Text
     injection h with h; injection h with h1 h2
     injection h2 with h2; injection h2 with h2
     subst h2; subst h1
-    obtain ⟨a, b, _, g⟩ := init_ok env hinit
-    refine ⟨rfl, ?_, sel, rfl, a, b⟩
-    unfold Selecting.candidates at hc
-    simp only at hc
-    exact candidates_nonempty env g hc
+    obtain ⟨a, b, _, _⟩ := init_ok env hinit
+    exact ⟨rfl, sel, rfl, a, b⟩
   · cases h
   · cases h
+
+/-- a list that `open_phrase` opens is the one `new_phrase` made, and it lists something -/
+theorem openPhrase_opened {sh sh' : Shared D L} {s : Selecting}
+    (h : openPhrase env sh = .ok (sh', .toState (.selecting s))) :
+    newPhrase env sh = .ok (sh', .toState (.selecting s)) ∧
+    ∀ cs, Selecting.candidates env s sh' = .ok cs → cs ≠ [] := by
+  unfold openPhrase at h
+  split at h
+  · next sh1 s1 hn =>
+    split at h
+    · injection h with h; injection h with _ h2; cases h2
+    · next cs0 hne hcs =>
+      injection h with h; injection h with h1 h2
+      injection h2 with h2; injection h2 with h2
+      subst h1 h2
+      refine ⟨hn, fun cs hc hnil => hne ?_⟩
+      rw [hcs] at hc; injection hc with hc; rw [hc, hnil]
+    · cases h
+    · cases h
+  · next hne =>
+    obtain ⟨_, s2, hs⟩ := newPhrase_shape env h
+    exact absurd h (hne _ _)
+
+/-- **a phrase list opened by Down / Space / `start_selecting` is on page 0 and not empty**, so its
+    page index is *strictly* below the page count -/
+theorem openPhrase_nonempty {sh sh' : Shared D L} {s : Selecting} {cs : List Text}
+    (h : openPhrase env sh = .ok (sh', .toState (.selecting s)))
+    (hc : Selecting.candidates env s sh' = .ok cs) :
+    s.pageNo = 0 ∧ cs ≠ [] ∧ ∃ p, s.sel = .phrase p ∧ p.begin_ < p.end_ ∧ p.end_ ≤ p.com.len := by
+  obtain ⟨hn, hne⟩ := openPhrase_opened env h
+  obtain ⟨h0, hp⟩ := newPhrase_opened env hn
+  exact ⟨h0, hne cs hc, hp⟩
 
 
 
